@@ -128,7 +128,7 @@ class Effect:
 
 
 class Interp:
-    def __init__(self, graph, entry_args=None, prune_type_tests=True, type_tests=None):
+    def __init__(self, graph, entry_args=None, prune_type_tests=True, type_tests=None, entry_facts=None):
         self.g = graph
         self.fx = graph.fx
         self.tcx = graph.tcx
@@ -141,6 +141,7 @@ class Interp:
         self.dead_edges = set()
         self.cur_state = None
         self.type_tests = dict(type_tests or {})
+        self.entry_facts = frozenset(entry_facts or ())
         self.run()
 
     # ------------------------------------------------------------------ types
@@ -164,7 +165,16 @@ class Interp:
         return {"k": "other", "s": "?"}
 
     # ------------------------------------------------------------------ memory
+    def canon(self, st, path):
+        root, proj = path
+        for i in range(len(proj), -1, -1):
+            b = st.base.get((root, proj[:i]))
+            if b is not None:
+                return (b[0], b[1] + proj[i:])
+        return path
+
     def ver_of(self, st, path):
+        path = self.canon(st, path)
         root, proj = path
         vs = []
         for i in range(len(proj) + 1):
@@ -280,8 +290,9 @@ class Interp:
             st.base[dst] = sbase if sbase is not None else src
 
     def havoc(self, st, path, site):
+        cp = self.canon(st, path)
         self.kill_under(st, path)
-        st.ver[path] = site
+        st.ver[cp] = site
 
     # ------------------------------------------------------------------ places / operands
     def eval_place(self, st, inst, place):
@@ -494,6 +505,7 @@ class Interp:
         if self.cur_state is not None:
             d.setdefault("facts", self.cur_state.facts)
             d["ver"] = dict(self.cur_state.ver)
+            d["lens"] = {k: v for k, v in self.cur_state.env.items() if k[1] and k[1][-1] == "len"}
         e = Effect(kind, node.gid, idx, node, **d)
         self.effects.setdefault((node.gid, idx), []).append(e)
         return e
@@ -520,6 +532,7 @@ class Interp:
             else:
                 # aggregate / generic by-value parameter: an object of its own
                 st.base[cell] = (("A", i), ())
+        st.facts = self.entry_facts
         return st
 
     def join(self, gid, a, b):
@@ -792,6 +805,9 @@ class Interp:
         if leaf is not None:
             return leaf
         sub = {k[1]: v for k, v in st.env.items() if sub_of(rpath, k)}
+        for k, b in st.base.items():
+            if sub_of(rpath, k) and k[1] not in sub:
+                sub[k[1]] = ("alias", b)
         return ("tree", tuple(sorted(sub.items(), key=lambda kv: repr(kv[0]))))
 
     def switch_facts(self, d, val, eq):
@@ -864,7 +880,7 @@ class Interp:
 
 # ---------------------------------------------------------------------- fact implication
 
-def implies_ge0(facts, q, depth=2):
+def implies_ge0(facts, q, depth=3):
     """does the fact set imply polynomial q >= 0 (all atoms are unsigned, hence >= 0)?"""
     if q.nonneg_coeffs():
         return True
@@ -950,12 +966,12 @@ def type_test_params(graph):
     return out
 
 
-def analyze_arms(graph, entry_args=None, max_params=3):
+def analyze_arms(graph, entry_args=None, max_params=3, entry_facts=None):
     """one interpretation per assignment of the compile-time type tests ("typed" / "erased" arms)"""
     import itertools
     ps = type_test_params(graph)[:max_params]
     res = []
     for vals in itertools.product([True, False], repeat=len(ps)):
         tt = dict(zip(ps, vals))
-        res.append((tt, Interp(graph, entry_args=entry_args, type_tests=tt)))
+        res.append((tt, Interp(graph, entry_args=entry_args, type_tests=tt, entry_facts=entry_facts)))
     return res
